@@ -118,7 +118,7 @@ package memmetrics
 
 //@ func NewCounter
 //@   props C17
-//@   modifies everything
+//@   modifies external
 //@   ensures rejects_bad_config: (buckets <= 0 || resolution < 1000000000) ==> result1 != nil
 //@   ensures accepts_good_config: buckets >= 1 && resolution >= 1000000000 && len(options) == 0 ==> result1 == nil
 //@   loop 1 invariant len(options) == 0 ==> rc != nil && fresh(rc) && rc.resolution == resolution && len(rc.values) == buckets && rc.lastUpdated == zerotime && (forall j int :: 0 <= j && j < buckets ==> rc.values[j] == 0)
@@ -156,23 +156,23 @@ package memmetrics
 //@   props C18
 //@   trusted
 //@   requires m != nil
-//@   modifies everything
+//@   modifies external
 
 //@ func (*RTMetrics).recordStatusCode
 //@   props C18
 //@   trusted
-//@   modifies everything
+//@   modifies external
 
 //@ func (*RTMetrics).recordLatency
 //@   props C18
 //@   trusted
-//@   modifies everything
+//@   modifies external
 
 //@ func (*RTMetrics).Record
 //@   props C18
 //@   assume clock_stable
 //@   requires m != nil
-//@   modifies everything
+//@   modifies external
 //@   ensures total_counts_every_response: callarg(Inc, 0, 0) == m.total && callarg(Inc, 0, 1) == 1
 //@   ensures gateway_errors_are_network_errors: (code == 502 || code == 504) ==> calls(Inc) == 2 && callarg(Inc, 1, 0) == m.netErrors && callarg(Inc, 1, 1) == 1
 //@   ensures other_codes_are_not: !(code == 502 || code == 504) ==> calls(Inc) == 1
@@ -191,14 +191,14 @@ package memmetrics
 //@   props C18
 //@   trusted
 //@   requires m != nil
-//@   modifies everything
+//@   modifies external
 //@   ensures histogram_or_error: result1 == nil ==> result0 != nil
 
 //@ func (*RTMetrics).ResponseCodeRatio
 //@   props C18
 //@   trusted
 //@   requires m != nil
-//@   modifies everything
+//@   modifies external
 
 //@ func (*HDRHistogram).LatencyAtQuantile
 //@   props C18
@@ -208,5 +208,13 @@ package memmetrics
 //@ func (*RTMetrics).Export
 //@   props C09
 //@   atomic m.statusCodesLock
-//@   modifies everything
+//@   modifies external
 //@   ensures private_copy: result != nil && fresh(result)
+
+//@ func SplitFloat64
+//@   props C10
+//@   trusted
+//@   modifies nothing
+//@   ensures fresh_sets: result0 != nil && result1 != nil && fresh(result0)
+//@   ensures partition: forall j int :: 0 <= j && j < len(values) ==> (in(values[j], result0) <==> !in(values[j], result1))
+//@   ensures members_map_to_true: (forall v real :: in(v, result0) ==> result0[v]) && (forall v real :: in(v, result1) ==> result1[v])
